@@ -15,8 +15,16 @@ func ByName(a, b string) bool {
 func ByNameSmart(a, b string) bool {
 	v0, err0 := strconv.ParseFloat(a, 64)
 	v1, err1 := strconv.ParseFloat(b, 64)
-	if err0 == nil && err1 == nil {
-		return v0 < v1
+	num0 := err0 == nil && v0 == v0 // NaN cannot be ordered by magnitude, treat as text
+	num1 := err1 == nil && v1 == v1
+	if num0 && num1 {
+		if v0 != v1 {
+			return v0 < v1
+		}
+		return a < b // same magnitude (1 vs 1.0): spelling decides
+	}
+	if num0 != num1 {
+		return num0 // numbers before text
 	}
 	return a < b
 }
